@@ -3,7 +3,7 @@
    (Coq's Floats library is deliberately not imported here so that Print
    Assumptions prints the primitive float operations with qualified names.) *)
 From Murex Require Import Base.Outcome Base.Bytes Model.Expr Model.ExprSpec Check.C06
-     Proof.ExprClimb Proof.Expr Proof.ExprC06 Gen.ExprTables.
+     Model.ExprLex Proof.ExprClimb Proof.Expr Proof.ExprC06 Proof.ExprLex Gen.ExprTables.
 Import ListNotations.
 
 (* The fold-pass evaluator (scan left to right, fold the first operator whose
@@ -50,7 +50,8 @@ Print Assumptions C06_model_meets_reference.
 
 (* The same in the form the check evaluates on the implementation's observations. *)
 Theorem C06_model_meets_spec :
-  forall orc ts, spec_ok {| c_toks := ts; c_orc := orc; c_obs := obs_of (eval_expr orc ts) |} = true.
+  forall orc src ts,
+    spec_ok {| c_toks := ts; c_src := src; c_orc := orc; c_obs := obs_of (eval_expr orc ts) |} = true.
 Proof. exact model_meets_spec. Qed.
 Print Assumptions C06_model_meets_spec.
 
@@ -157,6 +158,36 @@ Theorem C06_table_ok_split_groups :
 Proof. vm_compute. reflexivity. Qed.
 Print Assumptions C06_table_ok_split_groups.
 
+(* The `-` rule of the reader (parse_expression.go case '-'): directly before a
+   digit, `-` is the subtraction operator after a value and the sign of a literal
+   at the start of an expression / group or after an operator — whatever blanks
+   precede it. *)
+Theorem C06_minus_after_value : forall f acc sub d r1,
+  is_digit d = true -> sign_position acc = false ->
+  lex (S f) (45 :: d :: r1)%N acc sub = lex f (d :: r1) (LOp Sub :: acc) sub.
+Proof. exact minus_after_value. Qed.
+Print Assumptions C06_minus_after_value.
+
+Theorem C06_minus_is_sign : forall f acc sub d r1,
+  is_digit d = true -> sign_position acc = true ->
+  lex (S f) (45 :: d :: r1)%N acc sub =
+  (let '(t, r') := span_while num_char r1 in lex f r' (LNum (45 :: d :: t)%N :: acc) sub).
+Proof. exact minus_is_sign. Qed.
+Print Assumptions C06_minus_is_sign.
+
+(* 1 -3, 1-3, 1 - 3 subtract; 1 - -3, 1--3, 1*-3, -3+1, (-3)-3 have a negative literal *)
+Theorem C06_minus_examples :
+  lex_expr [49;32;45;51]%N = Some [LNum [49]; LOp Sub; LNum [51]]%N /\
+  lex_expr [49;45;51]%N = Some [LNum [49]; LOp Sub; LNum [51]]%N /\
+  lex_expr [49;32;45;32;51]%N = Some [LNum [49]; LOp Sub; LNum [51]]%N /\
+  lex_expr [49;32;45;32;45;51]%N = Some [LNum [49]; LOp Sub; LNum [45;51]]%N /\
+  lex_expr [49;45;45;51]%N = Some [LNum [49]; LOp Sub; LNum [45;51]]%N /\
+  lex_expr [49;42;45;51]%N = Some [LNum [49]; LOp Mul; LNum [45;51]]%N /\
+  lex_expr [45;51;43;49]%N = Some [LNum [45;51]; LOp Add; LNum [49]]%N /\
+  lex_expr [40;45;51;41;45;51]%N = Some [LGroup [LNum [45;51]]; LOp Sub; LNum [51]]%N.
+Proof. exact minus_examples. Qed.
+Print Assumptions C06_minus_examples.
+
 (* Non-vacuity: a concrete mixed expression with nested parentheses parses, the
    reference gives it a value, the model computes it; spec_ok rejects the value
    a wrong precedence would give (2 + 3 * 4 = 20); table_ok rejects a table in
@@ -167,6 +198,6 @@ Example C06_nonvacuous :
   reference no_oracles [PV (VNum PrimFloat.two); PO Add; PV (VNum PrimFloat.two); PO Mul; PV (VNum PrimFloat.two)]
     = Some (VNum (PrimFloat.add PrimFloat.two (PrimFloat.mul PrimFloat.two PrimFloat.two))) /\
   spec_ok {| c_toks := [PV (VNum PrimFloat.two); PO Add; PV (VNum PrimFloat.two); PO Mul; PV (VNum PrimFloat.two)];
-             c_orc := no_oracles; c_obs := {| o_kind := 0; o_val := VNum (PrimFloat.mul (PrimFloat.add PrimFloat.two PrimFloat.two) PrimFloat.two) |} |} = false /\
+             c_src := []; c_orc := no_oracles; c_obs := {| o_kind := 0; o_val := VNum (PrimFloat.mul (PrimFloat.add PrimFloat.two PrimFloat.two) PrimFloat.two) |} |} = false /\
   table_ok [sym_Add; sym_Multiply; sym_Merge; sym_GreaterThan; sym_EqualTo; sym_LogicalAnd; sym_LogicalOr; sym_Elvis; sym_Assign]%list = false.
 Proof. repeat split; try (eexists; vm_compute; reflexivity); vm_compute; reflexivity. Qed.
